@@ -65,6 +65,10 @@ type World struct {
 	Callers map[*ssa.Function][]ssa.CallInstruction
 	Edges   int
 	pkgOf   map[*ssa.Function]string
+	// byName maps the full name of a module function to the kept variant. With Tests, a package that has tests
+	// exists twice in the program (p and "p [p.test]"); other packages call the plain variant while the test
+	// variant is the one kept in Fns, so callees are canonicalised by name (see unwrap).
+	byName map[string]*ssa.Function
 }
 
 func loadWorld(o LoadOpts) (*World, error) {
@@ -172,6 +176,12 @@ func loadWorld(o LoadOpts) (*World, error) {
 		}
 	}
 	sort.Slice(w.Fns, func(i, j int) bool { return w.Fns[i].String() < w.Fns[j].String() })
+	w.byName = map[string]*ssa.Function{}
+	for _, fn := range w.Fns {
+		if fn.Parent() == nil {
+			w.byName[fn.String()] = fn
+		}
+	}
 	// package initialisers are kept (R16.1 needs to know them)
 	var g *callgraph.Graph
 	chag := cha.CallGraph(prog)
@@ -234,9 +244,15 @@ func (w *World) unwrap(fn *ssa.Function) *ssa.Function {
 			}
 		}
 		if target == nil {
-			return fn
+			break
 		}
 		fn = target
+	}
+	// the same source function in the variant of its package that was not kept (Tests only)
+	if fn != nil && !w.fnSet[fn] && fn.Parent() == nil && fn.Pkg != nil && strings.HasPrefix(fn.Pkg.Pkg.Path(), modPath) {
+		if c := w.byName[fn.String()]; c != nil {
+			return c
+		}
 	}
 	return fn
 }
